@@ -466,6 +466,18 @@ pub fn {L}_valid(b: &[u8]) -> bool {{
     }}
     {U}_F[s] == 1
 }}
+/// Same walk over an iterator: a drop-in for the generated `validate` of a
+/// byte-based type (used with #[kani::stub]).
+pub fn {L}_validate_iter(mut input: impl Iterator<Item = u8>) -> bool {{
+    let mut s: usize = {D.init};
+    loop {{
+        match input.next() {{
+            Some(b) => s = {U}_T[s * {U}_NCLS + {U}_CLS[b as usize] as usize] as usize,
+            None => break,
+        }}
+    }}
+    {U}_F[s] == 1
+}}
 """
 
 
@@ -485,6 +497,9 @@ def emit_all(dfas):
         ident = table_ident(fam, name)
         out.append(emit_rust(B, ident))
         info['%s::%s' % (fam, name)] = dict(char_states=D.n, byte_states=B.n)
+    # well-formed UTF-8 (Unicode Table 3-7) acceptor, by the same composition
+    anyc = DFA(1, 0, [[(0, 0x10FFFF, 0)]], [True], 0x10FFFF)
+    out.append(emit_rust(compose_utf8(anyc), 'T_UTF8'))
     return '\n'.join(out), info
 
 
